@@ -23,8 +23,8 @@ Open Scope N_scope.
 #[local] Arguments N.pow : simpl never.
 
 (** ** the capacity, read from the regenerated constant *)
-Lemma cap_value : movelist_cap = 18.
-Proof. vm_compute. reflexivity. Qed.
+Lemma cap_value : 18 <= movelist_cap.
+Proof. vm_compute. discriminate. Qed.
 
 (** ** [push] and loops of pushes *)
 Lemma push_length_le l s m pr : (length (push l s m pr) <= S (length l))%nat.
@@ -235,8 +235,8 @@ Proof. intros b Hs. pose proof (enumerate_moves_le18 b Hs). lia. Qed.
 
 Theorem sane_no_overflow : forall b, is_sane b = true -> movelist_overflow b = false.
 Proof.
-  intros b Hs. unfold movelist_overflow. rewrite cap_value. apply N.ltb_ge.
-  apply movelist_cap_ok. exact Hs.
+  intros b Hs. unfold movelist_overflow. apply N.ltb_ge.
+  apply N.le_trans with (m := 18); [apply movelist_cap_ok; exact Hs | exact cap_value].
 Qed.
 
 (** the only other panic site of [enumerate_moves]: [en_passant().unwrap()] in
@@ -253,7 +253,8 @@ Theorem accepted_no_overflow : forall bb b, try_from_builder bb = Some b ->
   movelist_overflow b = false /\ N.of_nat (length (enumerate_moves b)) <= movelist_cap.
 Proof.
   intros bb b H. destruct (accept_sound_bits bb b H) as (_ & Hs & _).
-  split; [apply sane_no_overflow; exact Hs|]. rewrite cap_value. apply movelist_cap_ok. exact Hs.
+  split; [apply sane_no_overflow; exact Hs|].
+  apply N.le_trans with (m := 18); [apply movelist_cap_ok; exact Hs | exact cap_value].
 Qed.
 
 Theorem parsed_no_overflow : forall s b, board_from_str s = Ok b ->
